@@ -476,7 +476,8 @@ def exec (sub : SubRun) (g : G) (f : Frame) (ins : Instr) : StepR :=
               | none => pan g2 f' "index out of range [-1]@coc details"
               | some dl => pushV g2 { f' with details := dl } (.int r))))
      | r => bad g f r)
-  | .wodInit => .next g { f with wodPool := 1, wodPoints := 10, wodThreshold := 8, wodGE := true }
+  | .wodInit => .next g { f with wodSaved := (f.wodPool, f.wodPoints, f.wodThreshold, f.wodGE) :: f.wodSaved,
+                                 wodPool := 1, wodPoints := 10, wodThreshold := 8, wodGE := true }
   | .wodPoints | .wodThreshold | .wodThresholdQ | .wodPool | .dcPool | .dcPoints =>
     (match f.pop with
      | .ok (v, f') =>
@@ -509,10 +510,14 @@ def exec (sub : SubRun) (g : G) (f : Frame) (ins : Instr) : StepR :=
                if r.over then err g1 f' "允许算力上限" else
                (match updLast f'.details (fun sp => { sp with ret := some (.int r.value), text := r.text, tag := "dice-wod" }) with
                 | none => pan g1 f' "index out of range [-1]@dice.wod details"
-                | some dl => pushV g1 { f' with details := dl } (.int r.value))
+                | some dl =>
+                  -- the roll is done: the enclosing term (if any) gets its parameters back
+                  (match f'.wodSaved with
+                   | (p, q, t, ge) :: rest => pushV g1 { f' with details := dl, wodPool := p, wodPoints := q, wodThreshold := t, wodGE := ge, wodSaved := rest } (.int r.value)
+                   | [] => pushV g1 { f' with details := dl } (.int r.value)))
              | _ => .stop g f' .diverge))
      | r => bad g f r)
-  | .dcInit => .next g { f with dcPool := 1, dcPoints := 10 }
+  | .dcInit => .next g { f with dcSaved := (f.dcPool, f.dcPoints) :: f.dcSaved, dcPool := 1, dcPoints := 10 }
   | .diceDC =>
     (match f.pop with
      | .ok (v, f') =>
@@ -530,7 +535,10 @@ def exec (sub : SubRun) (g : G) (f : Frame) (ins : Instr) : StepR :=
                if r.over then err g1 f' "允许算力上限" else
                (match updLast f'.details (fun sp => { sp with ret := some (.int r.value), text := r.text, tag := "dice-dc" }) with
                 | none => pan g1 f' "index out of range [-1]@dice.dc details"
-                | some dl => pushV g1 { f' with details := dl } (.int r.value))
+                | some dl =>
+                  (match f'.dcSaved with
+                   | (p, q) :: rest => pushV g1 { f' with details := dl, dcPool := p, dcPoints := q, dcSaved := rest } (.int r.value)
+                   | [] => pushV g1 { f' with details := dl } (.int r.value)))
              | _ => .stop g f' .diverge))
      | r => bad g f r)
   | .blockPush =>
